@@ -437,7 +437,7 @@ func ruleP05GuardedWrite(p *Prog, r *Report) {
 			if len(ret.Results) != 2 {
 				continue
 			}
-			res, e := ret.Results[0], ret.Results[1]
+			res, e := retResult(ret, 0), retResult(ret, 1)
 			en := p.nilnessAt(ret.Block(), e, 0)
 			if en != nnNonNil {
 				// reports success (or may): must be after a successful write, returning that result
@@ -506,7 +506,7 @@ func predicateContinuation(s *ssa.BasicBlock) (*ssa.BasicBlock, string) {
 			return nil, "the path continues inside " + fn.Name() + " instead of answering"
 		}
 		if ret, ok := b.Instrs[len(b.Instrs)-1].(*ssa.Return); ok {
-			v, isK := constBool(ret.Results[0])
+			v, isK := constBool(retResult(ret, 0))
 			if !isK {
 				return nil, fn.Name() + " does not answer with a constant on this path"
 			}
@@ -589,10 +589,10 @@ func ruleP05ApplyAbort(p *Prog, r *Report) {
 		if len(ret.Results) != 2 {
 			return "unexpected result arity"
 		}
-		if !isNilConst(ret.Results[0]) {
+		if !isNilConst(retResult(ret, 0)) {
 			return "returns a non-nil result on an error path at " + p.instrPos(ret)
 		}
-		if p.nilnessAt(ret.Block(), ret.Results[1], 0) != nnNonNil {
+		if p.nilnessAt(ret.Block(), retResult(ret, 1), 0) != nnNonNil {
 			return "does not return a non-nil error on an error path at " + p.instrPos(ret)
 		}
 		return ""
@@ -630,15 +630,15 @@ func ruleP05ApplyAbort(p *Prog, r *Report) {
 		r.check(msg == "", rule, "makeresult:aborts", p.instrPos(m), "a failing MakeResult returns (nil, error)", "a failing MakeResult does not abort: "+msg)
 	}
 	for i, ret := range returnsOf(f) {
-		if len(ret.Results) != 2 || isNilConst(ret.Results[0]) {
+		if len(ret.Results) != 2 || isNilConst(retResult(ret, 0)) {
 			// failure-shaped return: must carry a non-nil error
 			if len(ret.Results) == 2 {
-				r.check(p.nilnessAt(ret.Block(), ret.Results[1], 0) == nnNonNil, rule, fmt.Sprintf("return#%d:nil-result-has-error", i), p.instrPos(ret), "a nil result is accompanied by a non-nil error", "returns (nil, nil): failure reported as success")
+				r.check(p.nilnessAt(ret.Block(), retResult(ret, 1), 0) == nnNonNil, rule, fmt.Sprintf("return#%d:nil-result-has-error", i), p.instrPos(ret), "a nil result is accompanied by a non-nil error", "returns (nil, nil): failure reported as success")
 			}
 			continue
 		}
 		key := fmt.Sprintf("return#%d", i)
-		ok := sameValue(ret.Results[0], mRes) && knownNil(ret.Block(), mErr) && isNilConst(ret.Results[1])
+		ok := sameValue(retResult(ret, 0), mRes) && knownNil(ret.Block(), mErr) && isNilConst(retResult(ret, 1))
 		r.check(ok, rule, key+":success", p.instrPos(ret), "a non-nil result is MakeResult's, returned on its nil-error edge", "a non-nil result is returned that is not MakeResult's validated result on its nil-error edge")
 	}
 	// nil reconciler -> error before any step
@@ -700,15 +700,15 @@ func ruleP05MakeResultGuard(p *Prog, r *Report) {
 		if len(ret.Results) != 2 {
 			continue
 		}
-		if isNilConst(ret.Results[0]) {
-			r.check(p.nilnessAt(ret.Block(), ret.Results[1], 0) == nnNonNil, rule, key+":nil-result-has-error", p.instrPos(ret), "a nil result is accompanied by a non-nil error", "returns (nil, nil)")
+		if isNilConst(retResult(ret, 0)) {
+			r.check(p.nilnessAt(ret.Block(), retResult(ret, 1), 0) == nnNonNil, rule, key+":nil-result-has-error", p.instrPos(ret), "a nil result is accompanied by a non-nil error", "returns (nil, nil)")
 			continue
 		}
 		nSucc++
-		ok := knownNil(ret.Block(), errs) && isNilConst(ret.Results[1])
+		ok := knownNil(ret.Block(), errs) && isNilConst(retResult(ret, 1))
 		r.check(ok, rule, key+":guarded", p.instrPos(ret), "result returned only on the errs==nil edge of the re-parse", "a result is returned although the re-parse reported errors (or it is not tested)")
 		// AllSerialised of the returned struct is the parsed text
-		a, isAlloc := strip(ret.Results[0]).(*ssa.Alloc)
+		a, isAlloc := strip(retResult(ret, 0)).(*ssa.Alloc)
 		okText := false
 		if isAlloc {
 			for _, ref := range *a.Referrers() {
@@ -735,7 +735,7 @@ func ruleP05MakeResultGuard(p *Prog, r *Report) {
 	// on the errs != nil edge every path returns (nil, error)
 	if nonNil, _, ok := errorEdge(f, errs); ok {
 		msg := rejectComplete(nonNil, func(ret *ssa.Return) string {
-			if !isNilConst(ret.Results[0]) || p.nilnessAt(ret.Block(), ret.Results[1], 0) != nnNonNil {
+			if !isNilConst(retResult(ret, 0)) || p.nilnessAt(ret.Block(), retResult(ret, 1), 0) != nnNonNil {
 				return "does not return (nil, error) at " + p.instrPos(ret)
 			}
 			return ""
@@ -1060,7 +1060,7 @@ func ruleP05Exit(p *Prog, r *Report) {
 	}
 	for i, ret := range returnsOf(run) {
 		key := fmt.Sprintf("Run:return#%d", i)
-		code := ret.Results[0]
+		code := retResult(ret, 0)
 		after := kongRun.Block().Dominates(ret.Block())
 		if k, ok := constInt(code); ok && k == 0 {
 			okk := after && knownNil(ret.Block(), rErr)
@@ -1079,13 +1079,13 @@ func ruleP05Exit(p *Prog, r *Report) {
 		if after {
 			r.check(knownNonNil(ret.Block(), rErr) || !knownNil(ret.Block(), rErr), rule, key+":on-error-edge", p.instrPos(ret), "non-zero status not on the nil edge of the command error", "error status returned although the command succeeded")
 		}
-		nn := p.nilnessAt(ret.Block(), ret.Results[1], 0)
+		nn := p.nilnessAt(ret.Block(), retResult(ret, 1), 0)
 		r.check(nn == nnNonNil, rule, key+":err-nonnil", p.instrPos(ret), "a non-zero status is accompanied by a non-nil error (main exits only then)", "a non-zero status may be accompanied by a nil error, so main would exit 0")
 	}
 	// when rErr != nil, no return yields 0: the region of the non-nil edge
 	for _, ret := range returnsOf(run) {
 		if knownNonNil(ret.Block(), rErr) {
-			if k, ok := constInt(ret.Results[0]); ok && k == 0 {
+			if k, ok := constInt(retResult(ret, 0)); ok && k == 0 {
 				r.bad(rule, "Run:error->zero", p.instrPos(ret), "status 0 on the command-error edge")
 			}
 		}
@@ -1133,7 +1133,7 @@ func ruleP05Exit(p *Prog, r *Report) {
 			continue
 		}
 		for _, ret := range returnsOf(m) {
-			v := ret.Results[0]
+			v := retResult(ret, 0)
 			if k, ok := constInt(v); ok {
 				r.check(k >= 1, rule, "Code():"+tn, p.instrPos(ret), "constant code >= 1", "constant code < 1")
 			} else if _, fld := fieldLoad(v); fld == "code" {
